@@ -484,7 +484,8 @@ fn eval_predicate(
 ) -> error::Result<bool> {
     let value = eval_expr(predicate, node, context)?;
     match value {
-        model::Value::Number(v) => Ok(v as usize == context.get_position()),
+        // a number selects the node whose context position equals it: [1.5] and [NaN] select nothing
+        model::Value::Number(v) => Ok(v == context.get_position() as f64),
         _ => Ok(bool::try_from(&value)?),
     }
 }
